@@ -22,16 +22,59 @@ TEXT_ATTRS = {"pack", "revision"}
 
 
 def template_of_format(repo, attr):
-    """The '{0} v{1}.{2}'.format(...) template assigned to <attr> in both spa classes."""
+    """The template `<attr>` is formatted with in both spa classes, as a set of ('{} v{}.{}', holes).
+
+    Decided by evaluating the assigned expression: every local of the assigning method stands for an
+    object whose attributes read as distinct marker numbers, and the resulting text with the markers
+    turned back into holes is the template.  Any route to the text (str.format, f-string, %, a helper
+    function or static method) gives the same answer."""
+    from ..absint import Interp, Obj, Undecided, PyRaise, _assigned_names
     tpls = set()
     for cname in ("GeckoSpa", "GeckoAsyncSpa"):
         c = repo.cls(cname)
-        for m in c.methods.values():
+        for m in repo.all_methods(c).values():
             for n in walk_no_nested(m.node):
-                if isinstance(n, ast.Assign) and any(ast.unparse(t) == f"self.{attr}" for t in n.targets):
-                    v = n.value
-                    if isinstance(v, ast.Call) and isinstance(v.func, ast.Attribute) and v.func.attr == "format" and isinstance(v.func.value, ast.Constant):
-                        tpls.add((v.func.value.value, len(v.args)))
+                if not (isinstance(n, ast.Assign) and any(ast.unparse(t) == f"self.{attr}" for t in n.targets)):
+                    continue
+                v = n.value
+                if isinstance(v, ast.Constant):
+                    continue            # the initial None / ""
+                it = Interp(repo, max_depth=8)
+                counter = [7000]
+
+                class Mark(int):
+                    """stands for whatever the method read: a distinct number as a text, and reads through it are further marks"""
+                    def __new__(cls):
+                        counter[0] += 1
+                        o = int.__new__(cls, counter[0])
+                        o.attrs, o.items = {}, {}
+                        return o
+
+                    def __getitem__(self, k):
+                        try:
+                            return self.items.setdefault(k, Mark())
+                        except TypeError:
+                            return self.items.setdefault(repr(k), Mark())
+
+                def hook(interp, base, a):
+                    if isinstance(base, Mark):
+                        if a not in base.attrs:
+                            base.attrs[a] = Mark()
+                        return base.attrs[a]
+                    return NotImplemented
+                it.attr_hook = hook
+                a_ = m.node.args
+                env = {"__class__": m.cls, "__mod__": m.mod, "__locals__": set()}
+                for nm in set(_assigned_names(m.node)) | {p.arg for p in a_.posonlyargs + a_.args + a_.kwonlyargs}:
+                    env[nm] = Mark()
+                try:
+                    text = it.eval(v, env)
+                except (Undecided, PyRaise) as ex:
+                    raise AnalysisError(f"C19.R1: cannot evaluate the text assigned to self.{attr} in {m.qual}: {ex}")
+                if not isinstance(text, str):
+                    raise AnalysisError(f"C19.R1: self.{attr} is assigned a {type(text).__name__} in {m.qual}, not a text")
+                tpl, k = re.subn(r"70\d\d", "{}", text)
+                tpls.add((tpl, k))
     return tpls
 
 
